@@ -4,8 +4,10 @@ XD == {"det", "det2", "pdet", "motor", "motor2", "mon1", "amotor", "apdet"}
 ReadValDef == [d \in XD |-> CASE d = "motor" -> "dict:motor,motor_setpoint" [] d = "motor2" -> "dict:motor2,motor2_setpoint"
                                    [] d = "amotor" -> "dict:amotor,amotor_setpoint" [] d = "apdet" -> "dict:apdet" [] d = "det" -> "dict:det" [] d = "det2" -> "dict:det2" [] d = "pdet" -> "dict:pdet" [] OTHER -> "dict:mon1"]
 DataKeysDef == [d \in XD |-> {d}]
-StreamOrderDef == <<"baseline", "interruptions", "mon1", "primary">>
-DevOrderDef == <<"det", "det2", "mon1", "motor", "motor2", "pdet", "amotor", "apdet">>
+StreamOrderDef == <<"baseline", "fly1_stream", "fly2_stream", "interruptions", "mon1", "primary">>
+DevOrderDef == <<"det", "det2", "mon1", "motor", "motor2", "pdet", "amotor", "apdet", "fly1", "fly2">>
+FlyStreamDef == [f \in {"fly1", "fly2"} |-> f \o "_stream"]
+FlyNDef == [f \in {"fly1", "fly2"} |-> 2]
 XSus == {"s1", "s2"}
 SigOfDef == [x \in XSus |-> IF x = "s1" THEN "sig1" ELSE "sig2"]
 SusFutsDef == [x \in XSus |-> IF x = "s1" THEN <<"s1a", "s1b", "s1c", "s1d">> ELSE <<"s2a", "s2b", "s2c", "s2d">>]
